@@ -256,6 +256,7 @@ Inductive fcase :=
 | CClient (msize : N) (max : nat) (stream : list N) (pending : list (N * N))   (* client-side recv: (tag, expected R type) *)
           (events : list obs_event)
 | CAlloc (msize : N) (stream : list N) (alloc : N)     (* bytes allocated (runtime TotalAlloc) during one recv *)
+| CReneg (announced size : N) (answered returned : bool)   (* a frame of [size] bytes sent after the Rversion announcing [announced] *)
 | CFlag (ok : bool).           (* a comparison made by the harness itself (300 KB payload through a socket) *)
 
 Fixpoint reg_eqb (a b : list (N * option N)) : bool :=
@@ -269,9 +270,19 @@ Fixpoint reg_eqb (a b : list (N * option N)) : bool :=
 Definition sess_msize (msize : N) : N := N.min msize maximumLength.
 
 (** a session the model does not speak about: a Tversion inside the stream changes msize while
-    later frames are already being received; a tag reused while in flight is legitimately ignored *)
+    later frames are already being received; a tag reused while a DELIVERED request with that tag may
+    still be in flight is legitimately ignored.  A frame the decoder rejects is answered from the receive
+    path before the next frame is read and never activates its tag, so its tag (its own for an unknown
+    type, NOTAG for a bad body) may be used again by any later frame, which must then be answered. *)
 Definition sess_skip (frames : list (N * N)) : bool :=
   existsb (fun f => fst f =? p9_msgTversion) frames || negb (nodup_tags (map snd frames)).
+(** the frames of a walk the decoder does not reject (plus every Tversion) *)
+Definition accepted_frames (frames : list (N * N * (N * bool))) : list (N * N) :=
+  map fst (filter (fun f => negb (snd (snd f)) || (fst (fst f) =? p9_msgTversion)) frames).
+
+(** a frame sent after the connection's msize was renegotiated: it is judged by the msize announced in the
+    last Rversion (accepted and answered iff its size passes the header check against that value) *)
+Definition reneg_answered (announced size : N) : bool := hdr_check announced size.
 
 (** Allocation observed during one recv (buffers, the message, everything the decoder builds):
     at most 64 x the accepted frame size + 64 KiB, and 64 KiB when the header is refused.
@@ -383,6 +394,7 @@ Definition agrees (c : fcase) : bool :=
   | CClient msize max stream pending events =>
       clients_agree (run_client max msize pending stream) events
   | CAlloc _ _ _ => true
+  | CReneg announced size answered returned => Bool.eqb answered (reneg_answered announced size) && returned
   | CFlag _ => true
   end.
 
@@ -406,7 +418,7 @@ Definition property_holds (c : fcase) : bool :=
       let ftags := map (fun f => snd (fst f)) frames in
       let expect := map (fun f => snd f) frames in            (* (reply tag, must be Rlerror) *)
       negb hang && returned &&
-      (if sess_skip (map fst frames) then true else
+      (if sess_skip (accepted_frames frames) then true else
        let tail := walk_tail 200 (sess_msize msize) stream in
        (Nat.eqb (List.length replies) (List.length frames) ||
         (tail && Nat.eqb (List.length replies) (S (List.length frames)))) &&
@@ -438,6 +450,7 @@ Definition property_holds (c : fcase) : bool :=
           walk_ok_l (lookup_client pending) msize stream [OEv k t' ty hp p c]
       end
   | CAlloc msize stream alloc => alloc <=? alloc_bound msize stream
+  | CReneg announced size answered returned => Bool.eqb answered (reneg_answered announced size) && returned
   | CFlag ok => ok
   end.
 
